@@ -8,10 +8,20 @@
 EXTENDS TreeOrder, VerifEmit
 
 CONSTANTS GenDepth,     \* simulation: emit at this depth (0 = exhaustive mode: emit every node)
-          GenHistory    \* emit history-tree expectations for every set of <= 2 stored heads
+          GenHistory,   \* emit history-tree expectations for every set of <= 2 stored heads
+          GenReject     \* generate rejected deliveries (DeliverRejected) and the step that follows them
 
-VARIABLE hist
-gvars == <<vars, hist>>
+VARIABLES hist,
+          rj            \* [ph, r]: ph = 1 right after a rejected delivery to tree r, 2 one step later, else 0.
+                        \* A rejected delivery leaves the state as it was, so without rj (part of the
+                        \* views) the exhaustive generation would never continue a behaviour after it.
+gvars == <<vars, hist, rj>>
+
+NoRj == [ph |-> 0, r |-> 0]
+\* after a rejected delivery the next step is taken by the same tree (other continuations are
+\* those of the unchanged state)
+After(r) == rj.ph # 1 \/ rj.r = r
+Step == rj' = IF rj.ph = 1 THEN [rj EXCEPT !.ph = 2] ELSE NoRj
 
 ASSUME EmitReset
 
@@ -29,6 +39,7 @@ ExpOf(st) == [store |-> st.store, iter |-> Iter(st), root |-> st.root,
 \* (expectations are computed from the unprimed state: TLC does not cache LET definitions when it
 \* evaluates a primed expression, which makes primed recursive operators exponentially slow)
 GAdd(w, id, s, sz) ==
+    /\ After(w) /\ Step
     /\ Add(w, id, s, sz)
     /\ hist' = Append(hist, [act |-> "Add", r |-> w, id |-> id, isSnap |-> s, size |-> sz,
                              prev |-> AscSeq(TreeHeads(rep[w])), base |-> rep[w].root,
@@ -39,6 +50,7 @@ GAdd(w, id, s, sz) ==
                                       mode |-> IF s THEN "Rebuild" ELSE "Append"]])
 
 GDeliver(dst, src, B, p) ==
+    /\ After(dst) /\ Step
     /\ Deliver(dst, src, B, p)
     /\ hist' = Append(hist, [act |-> "Deliver", r |-> dst, src |-> src, batch |-> B,
                              heads |-> AscSeq(TreeHeads(rep[src])),
@@ -46,7 +58,19 @@ GDeliver(dst, src, B, p) ==
                              exp |-> ExpOf(DeliverTo(rep[dst], B, TreeHeads(rep[src]),
                                                      IF p THEN PathOf(rep[src]) ELSE <<>>))])
 
+\* a delivery whose change `bad` is refused by the receiver's validator after it was attached
+GReject(dst, src, B, p, bad) ==
+    /\ GenReject /\ rj.ph # 1
+    /\ DeliverRejected(dst, src, B, p, bad)
+    /\ rj' = [ph |-> 1, r |-> dst]
+    /\ hist' = Append(hist, [act |-> "Reject", r |-> dst, src |-> src, batch |-> B, bad |-> bad,
+                             heads |-> AscSeq(TreeHeads(rep[src])),
+                             path |-> IF p THEN PathOf(rep[src]) ELSE <<>>,
+                             exp |-> ExpOf(RejectTo(rep[dst], B, TreeHeads(rep[src]),
+                                                    IF p THEN PathOf(rep[src]) ELSE <<>>))])
+
 GReopen(r) ==
+    /\ After(r) /\ Step
     /\ hist # <<>> /\ hist[Len(hist)].act \notin {"Reopen", "Pad"}
     /\ Reopen(r)
     /\ hist' = Append(hist, [act |-> "Reopen", r |-> r, exp |-> ExpOf(ReopenOf(rep[r]))])
@@ -55,25 +79,26 @@ GReopen(r) ==
 \* trace is forced to be the single action Done, which is where the behaviour is emitted; a
 \* behaviour may idle once the universe is complete so that every trace gets there)
 More == GenDepth = 0 \/ Len(hist) < GenDepth - 1
-GPad  == GenDepth > 0 /\ More /\ Cardinality(Used) = MaxC + 1
+GPad  == GenDepth > 0 /\ More /\ Cardinality(Used) = MaxC + 1 /\ Step
          /\ hist' = Append(hist, [act |-> "Pad"]) /\ UNCHANGED vars
-GDone == GenDepth > 0 /\ Len(hist) = GenDepth - 1
+GDone == GenDepth > 0 /\ Len(hist) = GenDepth - 1 /\ Step
          /\ hist' = Append(hist, [act |-> "Done"]) /\ UNCHANGED vars
 
-GenInit == Init /\ hist = <<>>
+GenInit == Init /\ hist = <<>> /\ rj = NoRj
 GenNext ==
     \/ /\ More
        /\ \/ \E w \in Writers, id \in Ids, s \in BOOLEAN, sz \in Sizes : GAdd(w, id, s, sz)
           \/ \E dst, src \in Replicas : \E B \in BatchesOf(rep[src].store, MaxBatch) :
-                 \E p \in BOOLEAN : GDeliver(dst, src, B, p)
+                 \E p \in BOOLEAN : \/ GDeliver(dst, src, B, p)
+                                    \/ \E bad \in SeqSet(B) : GReject(dst, src, B, p, bad)
           \/ \E r \in Replicas : GReopen(r)
     \/ GPad
     \/ GDone
 GenSpec == GenInit /\ [][GenNext]_gvars
 
 \* one behaviour per distinct state (its breadth-first path)
-StateView == vars
-GenView == <<vars, IF hist = <<>> THEN <<>> ELSE [hist[Len(hist)] EXCEPT !.exp = 0]>>
+StateView == <<vars, rj>>
+GenView == <<vars, rj, IF hist = <<>> THEN <<>> ELSE [hist[Len(hist)] EXCEPT !.exp = 0]>>
 
 Universe == [c \in Used |-> [prev |-> AscSeq(Prev(c)), snap |-> Snap(c), isSnap |-> IsSnap(c), size |-> Size(c)]]
 Behaviour == [spec |-> "TreeOrder", fix |-> FixCommonSnapshot,
